@@ -53,6 +53,7 @@ func held(mu any) bool { return false }
 
 //@ func Association.processAcknowledgement
 //@   loop 2 complete{C15}
+//@   loop 2 atend assert#acknowledged-bytes-reach-their-stream{C15} a.streams[si] != nil
 //@   at call Stream.onBufferReleased assert#released-without-association-lock{C15} !held(a.lock)
 
 //@ func Stream.handleForwardTSNForUnordered
